@@ -82,7 +82,10 @@ fn composites(schema: &SchemaDoc) -> Vec<String> {
     schema.defs.iter().filter(|d| !matches!(d, TypeDef::Extend { .. })).map(|d| d.name().to_string()).filter(|n| is_composite(schema, n)).collect()
 }
 
-pub const EDITS: [&str; 14] = [
+pub const EDITS: [&str; 17] = [
+    "unknown_field_aliased_typename",
+    "subselection_on_leaf_aliased_typename",
+    "subscription_same_field_twice",
     "subscription_two_root_fields_one_response_name",
     "field_renamed_in_schema",
     "typename_only_in_variant_fragment",
@@ -116,6 +119,40 @@ pub fn apply_edit(rng: &mut Rng, p: &Program, edit: &str) -> Option<Program> {
             let (list, i) = at_mut(&mut q.doc, &c.0);
             if let Sel::Field { name, .. } = &mut list[i] {
                 *name = "noSuchFieldHere".into();
+            }
+        }
+        // the same two mistakes hidden behind the ALIAS `__typename` (the meta field is recognised by its name,
+        // not by the key it answers under)
+        "unknown_field_aliased_typename" => {
+            let c = pick(rng, pos.into_iter().filter(|(ps, s)| matches!(s, Sel::Field { name, .. } if name != "__typename") && p.schema.kind_of(&ps.parent_type) != "UNION").collect())?;
+            let (list, i) = at_mut(&mut q.doc, &c.0);
+            if let Sel::Field { name, alias, sub } = &mut list[i] {
+                *name = "noSuchFieldHere".into();
+                *alias = Some("__typename".into());
+                sub.clear();
+            }
+        }
+        "subselection_on_leaf_aliased_typename" => {
+            let c = pick(rng, pos.into_iter().filter(|(ps, s)| match s {
+                Sel::Field { name, sub, .. } if name != "__typename" && sub.is_empty() => fields_of(&p.schema, &ps.parent_type).iter().any(|f| &f.name == name && !is_composite(&p.schema, f.ty.name())),
+                _ => false,
+            }).collect())?;
+            let (list, i) = at_mut(&mut q.doc, &c.0);
+            if let Sel::Field { sub, alias, .. } = &mut list[i] {
+                sub.push(Sel::field("name"));
+                *alias = Some("__typename".into());
+            }
+        }
+        // the SAME root field selected twice under two response names: two root fields
+        "subscription_same_field_twice" => {
+            let idx = q.doc.defs.iter().position(|d| matches!(d, QDef::Op { kind: OpKind::Subscription, .. }))?;
+            if let QDef::Op { sel, .. } = &mut q.doc.defs[idx] {
+                let first = sel.first().cloned()?;
+                if let Sel::Field { name, sub, .. } = first {
+                    sel.push(Sel::Field { alias: Some("againUnderAnotherName".into()), name, sub });
+                } else {
+                    return None;
+                }
             }
         }
         // the query is left alone and the SCHEMA changes under it: the field it selects is renamed in the
